@@ -470,7 +470,7 @@ func Extremes() []Item {
 			for i := range fs {
 				idx := i + 1
 				if sparse {
-					idx = 1 + i*67 // up to 4300: fieldsByIndex is a dense table
+					idx = i * 67 // 0 (the lowest index the library accepts) up to 4300: fieldsByIndex is a dense table
 				}
 				t := L(KInt)
 				switch i % 4 {
